@@ -19,6 +19,11 @@ sys.path.insert(0, HERE)
 CHECKS = {
     'C07': ('checks.store_check', 'C07'),
     'C08': ('checks.store_check', 'C08'),
+    'C10': ('checks.replist_check', 'C10'),
+    'C03': ('checks.replist_check', 'C03'),
+    'C06': ('checks.replist_check', 'C06'),
+    'C05': ('checks.replist_check', 'C05'),
+    'C19': ('checks.replist_check', 'C19'),
 }
 
 
